@@ -825,3 +825,171 @@ Proof.
   intros W N E. apply nonzero_sorted_exact; try assumption.
   unfold row_segs. rewrite E. apply (sorted_swap (r_mn rt)). apply (wf_dims rt W).
 Qed.
+
+(* ------------------------------------------------------------------ per-sample statistics *)
+Lemma zinsert_perm x l : Permutation (zinsert x l) (x :: l).
+Proof.
+  induction l as [|y t IH]; simpl; [apply Permutation_refl|].
+  destruct (Z.leb x y); [apply Permutation_refl|].
+  eapply Permutation_trans; [apply perm_skip; exact IH|apply perm_swap].
+Qed.
+
+Lemma zsort_perm l : Permutation (zsort l) l.
+Proof.
+  induction l as [|x l IH]; simpl; [constructor|].
+  eapply Permutation_trans; [apply zinsert_perm|apply perm_skip; exact IH].
+Qed.
+
+Lemma zinsert_sorted x l : StronglySorted Z.le l -> StronglySorted Z.le (zinsert x l).
+Proof.
+  induction l as [|y t IH]; simpl; intros H.
+  - constructor; constructor.
+  - inversion H as [|? ? Ht Hy]; subst. destruct (Z.leb x y) eqn:E.
+    + apply Z.leb_le in E. constructor; [exact H|]. constructor; [exact E|].
+      eapply Forall_impl; [|exact Hy]. intros z Hz. simpl in Hz. lia.
+    + apply Z.leb_gt in E. constructor; [apply IH; exact Ht|].
+      apply Forall_forall. intros z Hz. apply (Permutation_in _ (zinsert_perm x t)) in Hz.
+      destruct Hz as [Hz|Hz]; [subst; lia|]. rewrite Forall_forall in Hy. apply Hy. exact Hz.
+Qed.
+
+Lemma zsort_sorted l : StronglySorted Z.le (zsort l).
+Proof. induction l as [|x l IH]; simpl; [constructor|apply zinsert_sorted; exact IH]. Qed.
+
+Lemma zsort_length l : length (zsort l) = length l.
+Proof. apply Permutation_length. apply zsort_perm. Qed.
+
+Theorem stats_spec_nonempty l : l <> [] ->
+  let '(mn, mx, med, avg) := stats l in
+  (In mn l /\ forall x, In x l -> (mn <= x)%Z) /\
+  (In mx l /\ forall x, In x l -> (x <= mx)%Z) /\
+  (exists s, Permutation s l /\ StronglySorted Z.le s /\
+             med = if Nat.even (length l)
+                   then ((nth (length l / 2 - 1) s 0 + nth (length l / 2) s 0)%Z, 2%Z)
+                   else (nth (length l / 2) s 0%Z, 1%Z)) /\
+  avg = (zsum l, Z.of_nat (length l)).
+Proof.
+  intros Hl. destruct l as [|x t]; [contradiction|]. unfold stats, fold1. repeat split.
+  - apply (fold_op_spec Z.min Z.le min_cases); intros; lia.
+  - apply (fold_op_spec Z.min Z.le min_cases); intros; lia.
+  - apply (fold_op_spec Z.max ge max_cases); unfold ge; intros; lia.
+  - intros y Hy. apply (fold_op_spec Z.max ge max_cases); unfold ge; intros; try lia. exact Hy.
+  - exists (zsort (x :: t)). split; [apply zsort_perm|]. split; [apply zsort_sorted|]. reflexivity.
+Qed.
+
+Lemma sample_counts_agree binary rt : wf_r rt -> r_sample_counts binary rt = d_sample_counts binary (content_of rt).
+Proof.
+  intros W. destruct (vectors_agree rt W) as [_ VS].
+  unfold r_sample_counts, d_sample_counts. rewrite VS. reflexivity.
+Qed.
+
+Theorem stats_agree binary rt : wf_r rt -> r_stats binary rt = d_stats binary (content_of rt).
+Proof. intros W. unfold r_stats, d_stats. rewrite (sample_counts_agree binary rt W). reflexivity. Qed.
+
+(* ------------------------------------------------------------------ transpose on the representation *)
+Theorem content_transpose rt : wf_r rt -> content_of (rt_transpose rt) = transpose_t (content_of rt).
+Proof.
+  intros W. destruct (vectors_agree rt W) as [_ VS]. destruct (axis_segs_ok rt W) as [_ FS].
+  unfold content_of, rt_transpose, transpose_t, dense, nsamp; simpl.
+  rewrite (dense_elim _ _ FS). unfold r_vectors in VS. rewrite VS. reflexivity.
+Qed.
+
+Theorem wf_rt_transpose rt : wf_r rt -> wf_r (rt_transpose rt).
+Proof.
+  intros W. pose proof W as (NDo & NDs & _ & _ & Mo & Ms).
+  destruct (axis_segs_ok rt W) as [_ FS]. destruct (axis_dims rt W) as (_ & _ & A3 & A4).
+  unfold wf_r, rt_transpose, dims_ok, r_nobs, r_nsamp; simpl. repeat split; try assumption.
+  - rewrite map_length. exact A4.
+  - apply Forall_forall. intros s Hs. apply in_map_iff in Hs. destruct Hs as [s0 [E Hs0]]. subst.
+    apply seg_ok_elim. rewrite Forall_forall in FS. apply FS. exact Hs0.
+Qed.
+
+(* ------------------------------------------------------------------ the report *)
+Definition r_report_on (o q : bool) (t : rtable) : list (Z * figure) * list (Z * Z) :=
+  let counts := r_sample_counts q t in
+  (report_lines o q (r_nsamp t) (r_nobs t) counts (r_density t) (md_keys (r_smd t)) (md_keys (r_omd t)),
+   ksort (combine (r_sids t) counts)).
+Definition d_report_on (o q : bool) (t : table) : list (Z * figure) * list (Z * Z) :=
+  let counts := d_sample_counts q t in
+  (report_lines o q (nsamp t) (nobs t) counts (d_density t) (md_keys (smd t)) (md_keys (omd t)),
+   ksort (combine (sids t) counts)).
+
+Lemma report_on_agree o q t : wf_r t -> r_report_on o q t = d_report_on o q (content_of t).
+Proof.
+  intros W. unfold r_report_on, d_report_on.
+  rewrite (sample_counts_agree q t W), (density_agree t W). reflexivity.
+Qed.
+
+Theorem report_agree q o rt : wf_r rt -> r_report q o rt = d_report q o (content_of rt).
+Proof.
+  intros W. change (r_report q o rt) with (r_report_on o q (if o then rt_transpose rt else rt)).
+  change (d_report q o (content_of rt)) with (d_report_on o q (if o then transpose_t (content_of rt) else content_of rt)).
+  destruct o.
+  - rewrite <- (content_transpose rt W). apply report_on_agree. apply wf_rt_transpose. exact W.
+  - apply report_on_agree. exact W.
+Qed.
+
+(* the labels of the two counts and of the two key lists change places with --observations *)
+Lemma report_lines_swap q ns no counts dens sk ok :
+  report_lines true q ns no counts dens sk ok = report_lines false q no ns counts dens ok sk.
+Proof. unfold report_lines. destruct (stats counts) as [[[mn mx] med] avg]. reflexivity. Qed.
+
+Lemma wf_content rt : wf_r rt -> wf (content_of rt).
+Proof.
+  intros W. destruct (dense_shape rt W) as [L R]. destruct W as (NDo & NDs & _ & _ & Mo & Ms).
+  unfold wf, content_of, nobs, nsamp; simpl. repeat split; assumption.
+Qed.
+
+(* per-observation figures: the sample vectors of the transposed table are the rows *)
+Lemma counts_transposed q t : wf t -> d_sample_counts q (transpose_t t) = map (vcount q) (mat t).
+Proof.
+  intros (H1 & H2 & _). unfold d_sample_counts, transpose_t, nsamp, nobs in *; simpl.
+  rewrite <- H1. rewrite transpose_involutive by exact H2. reflexivity.
+Qed.
+
+Lemma density_transposed t : wf t -> d_density (transpose_t t) = d_density t.
+Proof.
+  intros (H1 & H2 & _). unfold d_density, transpose_t, nsamp, nobs in *; simpl.
+  rewrite (count_nonzero_transpose _ _ H2), orb_comm, Nat.mul_comm. reflexivity.
+Qed.
+
+Theorem report_transposed_spec q t : wf t ->
+  d_report q true t =
+  (report_lines false q (nsamp t) (nobs t) (map (vcount q) (mat t)) (d_density t) (md_keys (smd t)) (md_keys (omd t)),
+   ksort (combine (oids t) (map (vcount q) (mat t)))).
+Proof.
+  intros W. unfold d_report. rewrite report_lines_swap, (counts_transposed q t W), (density_transposed t W).
+  reflexivity.
+Qed.
+
+(* the detail lines: every (id, count) once, in ascending order of count *)
+Lemma kinsert_perm x l : Permutation (kinsert x l) (x :: l).
+Proof.
+  induction l as [|y t IH]; simpl; [apply Permutation_refl|].
+  destruct (Z.leb (snd x) (snd y)); [apply Permutation_refl|].
+  eapply Permutation_trans; [apply perm_skip; exact IH|apply perm_swap].
+Qed.
+
+Lemma ksort_perm l : Permutation (ksort l) l.
+Proof.
+  induction l as [|x l IH]; simpl; [constructor|].
+  eapply Permutation_trans; [apply kinsert_perm|apply perm_skip; exact IH].
+Qed.
+
+Definition kle (a b : Z * Z) : Prop := (snd a <= snd b)%Z.
+
+Lemma kinsert_sorted x l : StronglySorted kle l -> StronglySorted kle (kinsert x l).
+Proof.
+  induction l as [|y t IH]; simpl; intros H.
+  - constructor; constructor.
+  - inversion H as [|? ? Ht Hy]; subst. destruct (Z.leb (snd x) (snd y)) eqn:E.
+    + apply Z.leb_le in E. constructor; [exact H|]. constructor; [exact E|].
+      eapply Forall_impl; [|exact Hy]. intros z Hz. unfold kle in *. lia.
+    + apply Z.leb_gt in E. constructor; [apply IH; exact Ht|].
+      apply Forall_forall. intros z Hz. apply (Permutation_in _ (kinsert_perm x t)) in Hz.
+      destruct Hz as [Hz|Hz]; [subst; unfold kle; lia|]. rewrite Forall_forall in Hy. apply Hy. exact Hz.
+Qed.
+
+Theorem ksort_spec l : Permutation (ksort l) l /\ StronglySorted kle (ksort l).
+Proof.
+  split; [apply ksort_perm|]. induction l as [|x l IH]; simpl; [constructor|apply kinsert_sorted; exact IH].
+Qed.
